@@ -112,7 +112,10 @@ def failing_oracle(ops, oracle_step):
             st = im.step(op)
         except Exception as e:          # handles that do not exist any more after shrinking
             return []
-        probs = oracle_step(im, ops, i, st)
+        try:
+            probs = oracle_step(im, ops, i, st)
+        except (IndexError, KeyError):  # a shrunk history that refers to objects a deleted op (deep copy, …) created
+            return []
         if probs: return probs
     return []
 
